@@ -4,3 +4,5 @@ open Femio.C15 Femio.Gradient
 #print axioms C15_affine_exact
 #print axioms C15_convenience
 #print axioms det3_eq_det
+#print axioms C15_translation_invariant
+#print axioms C15_moment_expanded
